@@ -9,6 +9,7 @@ mod c04;
 mod c05;
 mod c07;
 mod c08;
+mod c16;
 mod c19;
 
 fn main() {
@@ -22,6 +23,7 @@ fn main() {
                 "C05" => c05::run(ctx, rep),
                 "C07" => c07::run(ctx, rep),
                 "C08" => c08::run(ctx, rep),
+                "C16" => c16::run(ctx, rep),
                 "C19" => c19::run(ctx, rep),
                 _ => return false,
             }
@@ -36,6 +38,7 @@ fn main() {
                 "C05" => c05::replay(ctx, rep, case),
                 "C07" => c07::replay(ctx, rep, case),
                 "C08" => c08::replay(ctx, rep, case),
+                "C16" => c16::replay(ctx, rep, case),
                 "C19" => c19::replay(ctx, rep, case),
                 _ => return false,
             }
